@@ -220,9 +220,21 @@ def rule_scan(facts, rep):
         if len(wl) != 1:
             raise Unrecognised("one while loop expected")
         cond, body = wl[0]
-        c = hir.simp(cond)
-        ok = c.get("k") == "bin" and c["op"] == "Lt" and hir.is_local(c["l"], "index") and hir.is_call(hir.simp(c["r"]), "len") and \
-            table_is(hir.peel(hir.simp(c["r"])["args"][0]))
+        # the loop runs while `index < table.len()`; the only other conjunct accepted is "the best distance is not yet 0": an exact
+        # match cannot be beaten by a strictly-smaller test on an unsigned distance, so stopping there changes no result
+        ok, n_bound = True, 0
+        for c in hir.split_and(cond):
+            c = hir.simp(c)
+            if c.get("k") == "bin" and c["op"] == "Lt" and hir.is_local(c["l"], "index") and hir.is_call(hir.simp(c["r"]), "len") and \
+                    table_is(hir.peel(hir.simp(c["r"])["args"][0])):
+                n_bound += 1
+            elif c.get("k") == "bin" and "callee" not in c and (
+                    (c["op"] in ("Ne", "Gt") and hir.is_local(c["l"], "best_distance") and hir.lit_val(c["r"]) == 0) or
+                    (c["op"] in ("Ne", "Lt") and hir.is_local(c["r"], "best_distance") and hir.lit_val(c["l"]) == 0)):
+                pass
+            else:
+                ok = False
+        ok = ok and n_bound == 1
         rep.check(ok, "scan", path, "runs-to-len()", "", loc(b))
         st = [hir.simp(x) for x in hir.stmts_of(body)]
         ok_d = len(st) == 3 and st[0].get("k") == "let" and dist_of(st[0]["init"], "index")
